@@ -867,14 +867,21 @@ def gen_c03(rng, n, tier):
                 tags.add("entry:HandleIBTPData")
                 continue
             # one IBTP with a chosen proof kind
-            if r.random() < 0.6:
-                tx = g.tx_req()
+            if g.hub and r.random() < 0.5:
+                # world option hub=1: traffic with the registered BitXHub 9999 (and the unregistered 7777), the proof kinds
+                # tx_hub picks (signatures of too few / enough / unregistered validators, a plain proof, a hash mismatch)
+                ws = g.tx_hub().split()
+                if r.random() < 0.3:
+                    ws[8] = r.choice(["msig1", "msig2", "msig5", "none", "false", "ok"])
             else:
-                tx = g.tx_rcpt()
-            ws = tx.split()
-            if r.random() < 0.25:
-                ws[2 if ws[5] == "req" else 3] = r.choice(["c9:s1", "c1:s9", "9999:c1:s1"])
-            ws[8] = r.choices(["ok", "none", "bad", "false"], [0.35, 0.2, 0.2, 0.25])[0]
+                if r.random() < 0.6:
+                    tx = g.tx_req()
+                else:
+                    tx = g.tx_rcpt()
+                ws = tx.split()
+                if r.random() < 0.25:
+                    ws[2 if ws[5] == "req" else 3] = r.choice(["c9:s1", "c1:s9", "9999:c1:s1"])
+                ws[8] = r.choices(["ok", "none", "bad", "false"], [0.35, 0.2, 0.2, 0.25])[0]
             g.ops.append("q dump")
             g.ops.append("block " + " ".join(ws))
             g.ops.append("q dump")
@@ -889,7 +896,7 @@ def mon_c03(h, obs):
     steps = mon_exec.parse_trace(h, obs)
     master = {}        # chain -> verdict of the master rule as last read back (GetMasterRule), overriding the world's default
     forbidden = set()  # chains whose logout was approved
-    interhub = any("s:relaychain" in o and "trust:1,2,3,4" in o for o in h.ops)
+    interhub = any("s:relaychain" in o and "trust:1,2,3,4" in o for o in h.ops) or " hub=1" in h.ops[0]
     for i, st in enumerate(steps):
         if st[0] == "q" and st[1] == "obj" and st[2] == "appchain" and len(st[4]) > 3:
             m = re.search(r"status=(\S+)", st[3] or "")
@@ -914,7 +921,8 @@ def mon_c03(h, obs):
                 origin = (tx.frm if tx.typ == "req" else tx.to)
                 parts = origin.split(":")
                 chain = parts[0] if len(parts) == 2 else (parts[1] if len(parts) == 3 and parts[0] == "1356" else None)
-                verified = tx.proof == "ok" and chain not in forbidden and master.get(chain, ORIGIN_OK.get(chain, False)) and tx.typ in ("req", "ok", "fail", "rb")
+                # (the bytes of another hub's multi-signature proof are bytes like any others to a local chain's rule)
+                verified = (tx.proof == "ok" or tx.proof.startswith("msig")) and chain not in forbidden and master.get(chain, ORIGIN_OK.get(chain, False)) and tx.typ in ("req", "ok", "fail", "rb")
                 if len(parts) == 3 and parts[0] != "1356":
                     # relayed from another BitXHub: verified by more than (n-1)/3 signatures of that hub's registered validators —
                     # the only such hub of these histories is 9999 with four validators (proof kind msig<k>: k valid signatures)
